@@ -149,6 +149,9 @@ func specMs(d time.Duration) float64 { return ConvertDurationToMs(d) }
 //@ ensures[C06.par.pace]      forall(k, old(sendN)+1, sendN, sel(sendClock, k) >= sel(sendClock, k-1) + int(p.SendDelay))
 //@ ensures[ghost.mono]        sendN >= old(sendN)
 //@ ensures[C10.send.fatal]    ncalls(TracerouteDriver.SendProbe) > old(ncalls(TracerouteDriver.SendProbe)) && lastres(TracerouteDriver.SendProbe, 0) != nil ==> ret0 != nil && wraps(ret0, lastres(TracerouteDriver.SendProbe, 0))
+// no probe is emitted once the receiver has cancelled the writer context (destination seen): every SendProbe is
+// preceded, with nothing in between that lets time pass, by a check that found the context still live
+//@ before TracerouteDriver.SendProbe assert[C06.par.stop.checked] !done(writerCtx)
 //@ loop 1 invariant[C10.send.handled] ncalls(TracerouteDriver.SendProbe) == old(ncalls(TracerouteDriver.SendProbe)) || lastres(TracerouteDriver.SendProbe, 0) == nil
 //@ stable C06.par.order C06.par.pace ghost.mono
 //@ modifies ghost clock, ghost sendN, ghost sendLog, ghost sendClock
@@ -168,6 +171,8 @@ func specMs(d time.Duration) float64 { return ConvertDurationToMs(d) }
 //@ loop 1 invariant[C10.recv.handled] ncalls(TracerouteDriver.ReceiveProbe) == old(ncalls(TracerouteDriver.ReceiveProbe)) || lastres(TracerouteDriver.ReceiveProbe, 1) == nil || CheckProbeRetryable("ReceiveProbe", lastres(TracerouteDriver.ReceiveProbe, 1))
 // every reply the driver hands over without error that passes validation is given to writeProbe in the same iteration
 // (nothing accepted is dropped, whatever the sender is doing at that moment)
+// a destination reply stops the sender: the writer context is cancelled in the same iteration that accepted it
+//@ loop 1 step[C06.par.stop]  ncalls(TracerouteDriver.ReceiveProbe) == iter(ncalls(TracerouteDriver.ReceiveProbe)) + 1 && lastres(TracerouteDriver.ReceiveProbe, 0) != nil && lastres(TracerouteDriver.ReceiveProbe, 1) == nil && lastres(TracerouteDriver.ReceiveProbe, 0).IsDest ==> cancelled(writerCancel)
 //@ loop 1 step[C07.recv.all]  ncalls(TracerouteDriver.ReceiveProbe) == iter(ncalls(TracerouteDriver.ReceiveProbe)) + 1 && lastres(TracerouteDriver.ReceiveProbe, 0) != nil && lastres(TracerouteDriver.ReceiveProbe, 1) == nil ==> ncalls("TracerouteParallel$1") == iter(ncalls("TracerouteParallel$1")) + 1 && lastarg("TracerouteParallel$1", probe) == lastres(TracerouteDriver.ReceiveProbe, 0)
 
 // ---- C10: local address discovery opens one UDP socket and hands it to the caller, or fails leaving nothing open
